@@ -216,7 +216,11 @@ def run_all(prop, cfg, tier, seed, workroot, scale=1, seed_shift=0):
     for si, spec in enumerate(specs):
         total = int(spec["cases"][tier] * scale)
         shards = spec.get("shards", {}).get(tier, 1)
-        per = max(1, total // shards)
+        per = max(1, total // shards) if not spec.get("per_shard_cases") else max(1, int(spec["cases"][tier] * scale))
+        if "seed" in spec:  # corpus run: fixed seed, replayed first and unchanged by VERIF_SEED
+            if seed_shift == 0:
+                jobs.append((spec, spec["seed"], int(spec["cases"][tier]), os.path.join(workroot, f"r{si}_fixed")))
+            continue
         for sh_i in range(shards):
             s = (seed + seed_shift) * 1000 + si * 100 + sh_i
             jobs.append((spec, s, per, os.path.join(workroot, f"r{si}_{sh_i}_{seed_shift}")))
@@ -362,7 +366,7 @@ def main():
                 "checker_cmd": f"cd /verif/lean && lake build NomtModel.Props.{prop} && lake env lean .lake/audit/Audit{prop}.lean  (#print axioms of every theorem)" + ("; lake env leanchecker NomtModel.Props." + prop if tier == "thorough" else ""),
                 "trusted_base": cfg.get("trusted_base", []) + ["Lean 4.33.0 kernel", "axioms: " + ", ".join(sorted({x for v in aud["axioms"].values() for x in v}) or ["none"])],
                 "theorems": [{"name": n, "axioms": aud["axioms"].get(n)} for n in aud["theorems"]],
-                "evaluations": sum(r.get("lines", 0) for r in results) or stats.get("evaluations", 0),
+                "evaluations": sum(r.get("lines", 0) for r in results) + stats.get("children", 0) + stats.get("nested_children", 0),
                 "distinct_nontrivial": stats.get("distinct_nontrivial", 0),
                 "rule": cfg.get("rule", ""),
                 "samples": samples[:10] or ["(no correspondence samples)"],
